@@ -457,8 +457,8 @@ class C19(Prop):
         ("bin/collect-exports", None),
         ("bin/replace-star-imports", None),
     ]
-    quick_cases = 1000
-    thorough_cases = 30000
+    quick_cases = 800
+    thorough_cases = 20000
     quick_deadline_s = 60
     thorough_deadline_s = 600
     rule = ("universes of generated module files in a fresh directory on sys.path (plain module, package __init__, module in a "
